@@ -9,6 +9,8 @@ def _c02_nontrivial(t):
 CFG = {
     "module": "Swat4.Properties.C02",
     "theorems": [
+        # audited headline: secrets of six non-zero 7-bit bytes, for which the unsigned-byte reference GOA is the SDK
+        "Swat4.C02.C02_main_ascii",
         "Swat4.C02.C02_main",
         "Swat4.C02.encrypt_total",
         "Swat4.C02.encrypt_length",
@@ -17,6 +19,9 @@ CFG = {
         "Swat4.C02.schedule_agree",
         "Swat4.C02.facts_ok",
         "Swat4.C02.C02_swat4",
+        # cryptKey[keypos] (state.go:49), the one data-dependent key index: in range at every read (no panic; `% 8` in Crypt.kget is the identity)
+        "Swat4.C02.keypos_in_range",
+        "Swat4.C02.encrypt_checked",
     ],
     "shards": (1, 16),
     "nontrivial": _c02_nontrivial,
@@ -26,7 +31,13 @@ CFG = {
             "from the output) and decoded by the independent SDK-style reference decoder; non-trivial = plaintext non-empty",
     "assumptions": [
         "the SDK reference decoder (Spec/GOA.lean) is a transcription of the GameSpy SDK algorithm from knowledge of it; the SDK sources are not available offline",
-        "secrets are NUL-free (C string); for 8-bit secrets the SDK's signed char arithmetic is not modelled (outside the property's 7-bit quantifier)",
+        "secrets are NUL-free (C string); for 8-bit secrets the SDK's signed char arithmetic is not modelled (outside the property's 7-bit quantifier): "
+        "the audited headline is C02_main_ascii (every secret byte non-zero and below 128). C02_main and the generator's 8-bit NUL-free secrets "
+        "(a quarter of the cases; the driver's inScope is still `all (· ≠ 0)`) are compared with the Lean model and decoded by the unsigned-byte "
+        "reference Spec/GOA.lean only -- for secret bytes >= 128 that agreement is measured against the model's own reading of the algorithm, "
+        "not against the SDK's signed-char behaviour",
+        "Spec/GOA.lean and Model/Crypt.lean are structurally near-identical apart from the mask schedule, the mixKey arithmetic and strlen; "
+        "their agreement shows those differences are immaterial, not that both read the SDK correctly",
     ],
     "trusted_base": COMMON_TRUSTED,
     "manifest": {
